@@ -18,6 +18,7 @@ def main():
     ap.add_argument('--replay', default=None)
     args = ap.parse_args()
     prop = args.prop.upper()
+    os.environ['VERIF_TIER_RUNNING'] = args.tier      # read by common.check_obligations (leanchecker in the thorough tier)
     try:
         mod = importlib.import_module('harness.props.' + prop.lower())
     except ModuleNotFoundError:
